@@ -259,6 +259,10 @@ pub struct Cfg {
     /// clauses have been evaluated, so a run goes on past an exactness divergence (which is C02's)
     #[serde(default)]
     pub adopt_alive: bool,
+    /// the property this run is judged for: observational clauses other properties own are passed
+    /// over instead of ending the run (none: every clause ends it)
+    #[serde(default)]
+    pub judge: Option<String>,
 }
 
 impl Cfg {
